@@ -104,6 +104,37 @@ fn observe(ml: &MList, s: InfoSubset) -> Obs {
     v
 }
 
+/// Periodic workloads: (dictionary, configuration, [(name, first text, filler text, number of analyses before the
+/// probe, probe text)]). The connection id 2 is carried by the word "a" only, so it is looked up once per period.
+pub fn periodic_worlds() -> (DicModel, CfgModel, Vec<(String, String, String, usize, String)>) {
+    let (num, noun, sym) = (pos_from_str(POS_NUM), pos_from_str(POS_NOUN), pos_from_str(POS_SYM));
+    let dic = DicModel {
+        matrix: Matrix { nl: 3, nr: 3, lines: vec![(0, 0, 10), (0, 1, -20), (1, 0, 300), (1, 1, 5), (0, 2, 70), (2, 0, 40), (1, 2, 900), (2, 1, 33), (2, 2, 1)] },
+        system: vec![Entry::simple("1", 0, 0, 500, &num), Entry::simple("。", 1, 1, 100, &sym), Entry::simple("a", 2, 2, 700, &noun)],
+        users: vec![],
+    };
+    let cfg = CfgModel {
+        chardef: crate::model::cfg::FileSrc::Shipped,
+        input: vec![],
+        oov: vec![crate::model::cfg::OovPlugin::Simple { pos: sym.clone(), left: 0, right: 1, cost: 3000, user_pos: Some(true) }],
+        inhibit: None,
+        path: vec![],
+    };
+    let mut v = Vec::new();
+    for g in [16usize, 32, 64] {
+        for l in g - 2..=g + 2 {
+            for wraps in [1usize, 2] {
+                let m = 65536 / g * wraps;
+                let at = l / 2;
+                let s1 = format!("{}a{}", "1".repeat(at), "1".repeat(l - at - 1));
+                let s2 = format!("{}a{}", "。".repeat(at), "。".repeat(l - at - 1));
+                v.push((format!("period {} x {} characters", m, l), s1, "1".repeat(l), m, s2));
+            }
+        }
+    }
+    (dic, cfg, v)
+}
+
 impl Property for C10 {
     type Case = Case;
     fn id(&self) -> &'static str {
@@ -124,6 +155,31 @@ impl Property for C10 {
     }
     fn cases_per_shard(&self, tier: Tier) -> u32 {
         tier.pick(3000, 60000)
+    }
+    fn extra(&self, tier: Tier, seed: u64, ctx: &mut Ctx, stats: &mut Stats) -> Vec<(Value, Failure)> {
+        // long-lived tokenizers: histories of thousands of analyses on one tokenizer (more than 2^16 /
+        // 2^17 word-begin positions over its lifetime), every one compared with a fresh tokenizer
+        let dp = DicParams::small();
+        let n_ops = tier.pick(2500usize, 10000usize);
+        let st = (world(dp, CfgParams::full()), vec(op(24), n_ops..=n_ops + 200), pieces(10)).prop_map(|((dic, cfg), ops, probe)| Case { dic, cfg, ops, probe }).boxed();
+        let fam: Vec<(String, Case)> = sample_strategy(&st, splitmix(seed ^ 0xC10), tier.pick(16, 64)).into_iter().enumerate().map(|(i, c)| (format!("marathon {} ({} operations)", i, c.ops.len()), c)).collect();
+        let mut fails = run_family(self, ctx, stats, "marathon", fam);
+        // periodic workloads: the same boundary index is reached again after exactly 2^16 (2^17) word-begin
+        // positions of equally long filler texts, with another left context. Wrapping stamps / generation
+        // counters of per-position caches only show then. The number of positions one analysis of an
+        // L-character text consumes is not assumed: L runs over g-2..g+2 for g = 16, 32, 64.
+        let (dic, cfg, worlds) = periodic_worlds();
+        let mut fam: Vec<(String, Case)> = Vec::new();
+        for (name, s1, f, m, s2) in worlds {
+            let mut ops = vec![Op::Analyse(vec![Piece::Raw(s1)], true)];
+            ops.extend((1..m).map(|_| Op::Analyse(vec![Piece::Raw(f.clone())], true)));
+            fam.push((name, Case { dic: dic.clone(), cfg: cfg.clone(), ops, probe: vec![Piece::Raw(s2)] }));
+        }
+        if tier == Tier::Quick {
+            fam.retain(|(n, _)| !n.starts_with("period 8192") || n.ends_with(" 16 characters"));
+        }
+        fails.extend(run_family(self, ctx, stats, "periodic", fam));
+        fails
     }
     fn sample(&self, case: &Case) -> Value {
         let keys = all_keys(&case.dic);
